@@ -876,6 +876,8 @@ class _Unjellier:
         )
 
         clz = self.unjelly(rest[0])
+        if not self.taster.isClassAllowed(clz):
+            raise InsecureJelly("Class %r not allowed." % (clz,))
         return self._genericUnjelly(clz, rest[1])
 
     def _unjelly_unpersistable(self, rest):
